@@ -113,6 +113,7 @@ package generator
 //@   ensures [C01:single-result] len(result) == 1 && result == snoc(empty(Seq_S_generator_SimpleRegoResult), result[0])
 
 //@ func generateNumericRule(num profile.NumericRule, rule string, op string, iriExpander *misc.IriExpander) []SimpleRegoResult
+//@   ensures [C01:both-arms-follow-the-negation-flag] len(result) == 1 && (forall k int :: (3 <= k && k < len(result[0].Rego)) ==> (hasPrefix(result[0].Rego[k], "not ") <==> !num.Negated))
 //@   ensures [C14:trace-node-is-the-evaluated-node] len(result) >= 1 ==> result[0].TraceNode == num.Variable.Name
 //@   ensures [C01:single-result] len(result) == 1 && result == snoc(empty(Seq_S_generator_SimpleRegoResult), result[0])
 
